@@ -104,6 +104,25 @@ def run(tier, seed):
     import os
     P.design_mc(res, "Adv_Cover", "MC_Cover.cfg", os.path.join(vlib.SPEC, "mc", "peel_cover.ndjson"),
                 what="Cover machine: only required edges are marked, covered / honoured sets grow monotonically")
+    # the construction get_width implements (condense, split non-trivial components, multiplicity weights, max-weight
+    # antichain) equals the plain definition of the width, on every shape of the universe x ignore sets of <= 2 edges
+    shapes, seen = [], set()
+    srcs = [vlib.universe("motif", 6, k=2, w=2, l=1, cap=6), vlib.universe("cyc", 3, maxe=9, k=2, w=2, l=1, cap=6),
+            vlib.universe("cyc", 4, maxe=6, k=2, w=2, l=1, cap=4)]
+    for u in [x for s_ in srcs for x in s_]:
+        key = (tuple(u["nodes"]), tuple(map(tuple, u["edges"])))
+        if key not in seen:
+            seen.add(key)
+            shapes.append({"nodes": u["nodes"], "edges": u["edges"]})
+    if tier == "quick":
+        shapes = [s_ for s_ in shapes if len(s_["nodes"]) > 4] + C.spread([s_ for s_ in shapes if len(s_["nodes"]) <= 4], 60)
+    sc = vlib.scratch_dir()
+    wf = os.path.join(sc, "width_shapes.ndjson")
+    vlib.write_ndjson(wf, shapes)
+    P.design_mc(res, "Width", "MC_Width.cfg", wf, workers=16, timeout=2400,
+                what=f"get_width's construction = largest set of pairwise walk-incomparable non-ignored edges, {len(shapes)} shapes")
+    import shutil
+    shutil.rmtree(sc, ignore_errors=True)
     recs = P.drive(insts + kcov)
     main = recs[:len(insts)]
     krecs = recs[len(insts):]
